@@ -79,6 +79,21 @@ func tname(t types.Type) string {
 	return types.TypeString(t, func(p *types.Package) string { return "" })
 }
 
+// isPkgSel: e is the qualified identifier pkg.name (protoiface's input/output types are aliases of anonymous structs,
+// so the type itself carries no name).
+func isPkgSel(info *types.Info, e ast.Expr, pkg, name string) bool {
+	sel, ok := e.(*ast.SelectorExpr)
+	if !ok || sel.Sel.Name != name {
+		return false
+	}
+	id, ok := sel.X.(*ast.Ident)
+	if !ok {
+		return false
+	}
+	pn, ok := info.Uses[id].(*types.PkgName)
+	return ok && pn.Imported().Path() == pkg
+}
+
 // isErrRet: block is a single `return <out>, <non-nil error expr>`.
 func (w *decWalker) isErrRet(b *ast.BlockStmt) bool {
 	if b == nil || len(b.List) != 1 {
@@ -1252,6 +1267,23 @@ func extractUnmarshal(m *model.Msg) (*decModel, error) {
 				if ta, ok := rhs.(*ast.TypeAssertExpr); ok && strings.HasSuffix(types.ExprString(ta.X), ".Message.Interface()") {
 					if pt, ok := info.TypeOf(ta.Type).(*types.Pointer); ok && types.Identical(pt.Elem(), m.Named) {
 						w.msgV = info.ObjectOf(id)
+						continue
+					}
+				}
+				// out := protoiface.UnmarshalOutput{…: input.…}: the value every return hands back, built once
+				if cl, ok := rhs.(*ast.CompositeLit); ok && isPkgSel(info, cl.Type, "google.golang.org/protobuf/runtime/protoiface", "UnmarshalOutput") {
+					pure := true
+					for _, e := range cl.Elts {
+						kv, ok := e.(*ast.KeyValueExpr)
+						if !ok {
+							pure = false
+							break
+						}
+						if sel, ok := ast.Unparen(kv.Value).(*ast.SelectorExpr); !ok || !w.is(sel.X, inputVar) {
+							pure = false
+						}
+					}
+					if pure {
 						continue
 					}
 				}
